@@ -112,6 +112,7 @@ func (qe *QueryExecutor) ExecuteTask(_ context.Context, pid peer.ID, task *peert
 			span.SetStatus(codes.Error, err.Error())
 		}
 	}
+	verifAt("finishing", rt.Request.ID())
 	qe.manager.FinishTask(task, pid, err)
 	log.Debugw("finishing response execution", "id", rt.Request.ID(), "peer", pid.String(), "root_cid", rt.Request.Root().String())
 	return false
